@@ -10,7 +10,8 @@
    instrument (compared on every correspondence case against the exact simulator Common/QSim.v and
    against an independent density-matrix simulator in the harness). *)
 From Coq Require Import QArith.
-From CKT Require Import Common.Base Common.QSim Model.Sim Proofs.SimP.
+From Coq Require Import Permutation.
+From CKT Require Import Common.Base Common.QSim Model.Sim Model.SimTree Proofs.SimP Proofs.SimTreeP.
 Close Scope Q_scope.
 
 (* tolerance 0: for every outcome k, the returned probability equals the total weight of the paths ending
@@ -149,6 +150,82 @@ Proof.
   apply (simulate_outcome_bound qgate vec qapply qp1 qproj qflipx sim_tolerance qp1_range (proj1 c13_facts)).
 Qed.
 
+(* ================= extension: leaf-by-leaf refinement, sampler wrapper, Born step of QSim ================= *)
+
+(* ANY instrument, ANY tolerance: when the loop ends, the entries (outcome, (prob, sv)) of the dictionary are -- as a
+   multiset, with Leibniz-equal weights and states -- exactly the leaves of the branch tree (Model/SimTree.v: gates
+   applied with their operands in instruction order; measurement children clear/set the bit, so later writes
+   overwrite; reset children keep the register and flip the 1-child; children with conditional probability within
+   tol of 0 cut with their subtree).  The weight of every held branch is therefore literally the product of the
+   conditional probabilities along its path, and the returned list is `finalize` of that dictionary. *)
+Theorem c13_branches :
+  forall (gate state : Type) (apply : gate -> list nat -> state -> state) (p1 : state -> nat -> Q)
+         (proj : state -> nat -> bool -> state) (flipx : state -> nat -> state) (tol : Q)
+         (s0 : state) (p : prog gate), existsb refusing p = false ->
+  exists d, final_dict apply p1 proj flipx tol s0 p = Ok d /\
+            simulate apply p1 proj flipx tol s0 p = Ok (finalize d) /\ NoDup (map fst d) /\
+            Permutation (dict_items d) (tree apply p1 proj flipx tol p 0%N 1%Q s0).
+Proof. exact simulate_tree. Qed.
+
+(* hence at ANY tolerance (in particular the source's 1e-16, no hypothesis on p1) the returned finite map is
+   EXACTLY the law of the truncated tree, for every outcome and every function of the outcome *)
+Theorem c13_tree_law :
+  forall (gate state : Type) (apply : gate -> list nat -> state -> state) (p1 : state -> nat -> Q)
+         (proj : state -> nat -> bool -> state) (flipx : state -> nat -> state) (tol : Q)
+         (s0 : state) (p : prog gate), existsb refusing p = false ->
+  exists out, simulate apply p1 proj flipx tol s0 p = Ok out /\ NoDup (map fst out) /\
+    (forall phi, (ev phi out == ev phi (leaf_law (tree apply p1 proj flipx tol p 0%N 1%Q s0)))%Q) /\
+    (forall k, (lookup out k == lookup (leaf_law (tree apply p1 proj flipx tol p 0%N 1%Q s0)) k)%Q).
+Proof. exact simulate_tree_law. Qed.
+
+(* ExactSampler.run over several circuits: if every circuit passes Qiskit's validation and none holds a refusing
+   instruction, the call answers, with one distribution per circuit, the i-th being what the function returns for
+   the i-th circuit ALONE (no dependence on the other circuits of the call; the model is a function of its argument,
+   so there is no dependence on earlier calls either) *)
+Theorem c13_sampler_run_ok :
+  forall (gate state : Type) (apply : gate -> list nat -> state -> state) (p1 : state -> nat -> Q)
+         (proj : state -> nat -> bool -> state) (flipx : state -> nat -> state) (tol : Q)
+         (cs : list (nat * state * prog gate)),
+  cs <> [] -> forallb sampler_valid cs = true -> (forall c, In c cs -> existsb refusing (snd c) = false) ->
+  exists outs, sampler_run apply p1 proj flipx tol cs = Ok outs /\
+               Forall2 (fun c out => simulate apply p1 proj flipx tol (snd (fst c)) (snd c) = Ok out) cs outs.
+Proof. exact sampler_run_ok. Qed.
+
+(* ... and one invalid or refusing circuit anywhere in the call (or no circuit) refuses the whole call *)
+Theorem c13_sampler_run_refuses :
+  forall (gate state : Type) (apply : gate -> list nat -> state -> state) (p1 : state -> nat -> Q)
+         (proj : state -> nat -> bool -> state) (flipx : state -> nat -> state) (tol : Q)
+         (cs : list (nat * state * prog gate)),
+  (cs = [] \/ exists c, In c cs /\ (sampler_valid c = false \/ existsb refusing (snd c) = true)) ->
+  sampler_run apply p1 proj flipx tol cs = Refused.
+Proof. exact sampler_run_refuses. Qed.
+
+Theorem c13_sampler_run_single :
+  forall (gate state : Type) (apply : gate -> list nat -> state -> state) (p1 : state -> nat -> Q)
+         (proj : state -> nat -> bool -> state) (flipx : state -> nat -> state) (tol : Q) ncl s0 (p : prog gate),
+  sampler_run apply p1 proj flipx tol [(ncl, s0, p)] = res_map (fun x => [x]) (sampler apply p1 proj flipx tol ncl s0 p).
+Proof. exact sampler_run_single. Qed.
+
+(* The measurement step of the exact simulator IS the Born rule of the vector it holds, for every vector and qubit:
+   (1) the post-measurement vector qproj v q b has squared norm |P_b v|^2 = the sum of |amplitude|^2 over the indices
+       whose bit q is b;  (2) |P_0 v|^2 + |P_1 v|^2 = |v|^2 exactly in Q(sqrt2);  (3) whenever the audit bit
+       qp1_is_exact holds (evaluated by the correspondence on every measured state), the instrument's p1 is the exact
+       quotient |P_1 v|^2 / |v|^2, unclamped, with vanishing sqrt2-part;  (4) q2div is division in Q(sqrt2).
+   NOT proved: that the gate actions qapply are unitary / equal to Qiskit's matrices (compared per case). *)
+Theorem c13_qsim_born_step : forall (v : vec) (q : nat),
+  (forall b, norm2 (qproj v q b) = norm2_bit v q b) /\
+  ((fst (q2add (norm2_bit v q false) (norm2_bit v q true)) == fst (norm2 v))%Q /\
+   (snd (q2add (norm2_bit v q false) (norm2_bit v q true)) == snd (norm2 v))%Q) /\
+  (qp1_is_exact v q = true ->
+     (qp1 v q == fst (q2div (norm2 (qproj v q true)) (norm2 v)))%Q /\
+     (snd (q2div (norm2 (qproj v q true)) (norm2 v)) == 0)%Q) /\
+  (forall x y : q2, ~ (fst y * fst y - (2 # 1) * (snd y * snd y) == 0)%Q ->
+     (fst (q2mul (q2div x y) y) == fst x)%Q /\ (snd (q2mul (q2div x y) y) == snd x)%Q).
+Proof.
+  intros v q. split; [intros b; apply qproj_norm|]. split; [apply norm2_complete|].
+  split; [apply qp1_exact_value|]. intros x y; apply q2div_spec.
+Qed.
+
 (* ---- non-vacuity ---- *)
 Definition canon (r : res (list (N * Q))) : res (list (N * Q)) :=
   res_map (map (fun kp : N * Q => (fst kp, Qred (snd kp)))) r.
@@ -182,6 +259,35 @@ Example c13_ex_ccx :
   = Ok [(0%N, (5 # 8)%Q); (1%N, (1 # 8)%Q); (2%N, (1 # 8)%Q); (3%N, (1 # 8)%Q)].
 Proof. vm_compute. reflexivity. Qed.
 
+(* the leaves of the tree: weights are products of conditional probabilities, registers by overwrite *)
+Example c13_ex_tree :
+  map (fun kb : N * (Q * vec) => (fst kb, Qred (fst (snd kb)))) (qtree sim_tolerance 2 ex_bell)
+  = [(0%N, (1 # 2)%Q); (1%N, (1 # 2)%Q)] /\
+  List.length (qtree sim_tolerance 1 [PGate Gh [0]; PMeasure 0 0; PGate Gh [0]; PMeasure 0 0]) = 4.
+Proof. vm_compute. split; reflexivity. Qed.
+
+(* operand order is part of the statement: cx [1;0] (control 1) and cx [0;1] differ *)
+Example c13_ex_operand_order :
+  canon (qsimulate sim_tolerance 2 [PGate Gx [1]; PGate Gcx [1; 0]; PMeasure 0 0; PMeasure 1 1]) = Ok [(3%N, 1%Q)] /\
+  canon (qsimulate sim_tolerance 2 [PGate Gx [1]; PGate Gcx [0; 1]; PMeasure 0 0; PMeasure 1 1]) = Ok [(2%N, 1%Q)] /\
+  canon (qsimulate sim_tolerance 3 [PGate Gx [2]; PGate Gx [0]; PGate Gccx [2; 0; 1]; PMeasure 1 0]) = Ok [(1%N, 1%Q)] /\
+  canon (qsimulate sim_tolerance 3 [PGate Gx [2]; PGate Gx [0]; PGate Gccx [0; 1; 2]; PMeasure 1 0]) = Ok [(0%N, 1%Q)].
+Proof. vm_compute. repeat split; reflexivity. Qed.
+
+(* one sampler call over three circuits; a measurement-free circuit refuses the whole call *)
+Example c13_ex_sampler_run :
+  res_map (map (map (fun kp : N * Q => (fst kp, Qred (snd kp)))))
+    (qsampler_run sim_tolerance [(2, 1, ex_bell); (1, 2, [PGate Gx [0]; PMeasure 0 1]); (2, 1, ex_bell)])
+  = Ok [[(0%N, (1 # 2)%Q); (1%N, (1 # 2)%Q)]; [(2%N, 1%Q)]; [(0%N, (1 # 2)%Q); (1%N, (1 # 2)%Q)]] /\
+  qsampler_run sim_tolerance [(2, 1, ex_bell); (1, 2, [PGate Gx [0]])] = Refused /\
+  qsampler_run sim_tolerance [] = Refused.
+Proof. vm_compute. repeat split; reflexivity. Qed.
+
+(* the audit bit holds on a non-trivial state (hypothesis of c13_qsim_born_step (3)) *)
+Definition ex_bell_vec : vec := qapply Gcx [0; 1] (qapply Gh [0] (init_vec 2)).
+Example c13_ex_born_step : qp1_is_exact ex_bell_vec 1 = true /\ Qeq (qp1 ex_bell_vec 1) (1 # 2).
+Proof. vm_compute. split; reflexivity. Qed.
+
 (* deterministic branch: one child truncated at every measurement, nothing lost *)
 Example c13_ex_pruned :
   canon (qsimulate sim_tolerance 1 [PGate Gx [0]; PMeasure 0 2; PReset 0; PMeasure 0 0]) = Ok [(4%N, 1%Q)] /\
@@ -207,3 +313,9 @@ Print Assumptions c13_qsim_instance.
 Print Assumptions c13_facts.
 Print Assumptions c13_qsim_bound.
 Print Assumptions c13_qsim_outcome_bound.
+Print Assumptions c13_branches.
+Print Assumptions c13_tree_law.
+Print Assumptions c13_sampler_run_ok.
+Print Assumptions c13_sampler_run_refuses.
+Print Assumptions c13_sampler_run_single.
+Print Assumptions c13_qsim_born_step.
